@@ -20,8 +20,13 @@ Hostile1 == {<<>>, <<"MO", "$1">>, <<"$1", "MC">>, <<"MC", "$1", "MO">>, <<"NL",
              <<"MO", "$1", "NL", "$2", "MC">>}
 Reg2 == {<<"$3">>, <<"$3", "SEP", "$4">>}
 Hostile2 == {<<"MO", "$3">>, <<"$3", "MC", "NL", "$4">>, <<"NL", "$3">>, <<"$3", "BAD">>}
+ShapesOneW == {<<"$1">>}
 ShapesV == Reg1 \cup Hostile1
 Shapes2V == Reg2 \cup Hostile2
+\* restricted instance: what the library declares safe (links, keys, domains, tag keys,
+\* constant messages), transferred between knowing processes
+OpsRetain == {"New", "Unimplemented", "WithIssueLink", "WithTelemetry", "WithDomain", "WithContextTags",
+              "Handled", "WithSecondaryError", "Hop"}
 \* long strings: an unsafe word, then more text than any size limit of a reporting path
 ShapesLong == {<<"$1", "SP", "L_pad", "SP", "$2">>, <<"$1">>}
 \* regular strings only (congruence, retention)
